@@ -7,8 +7,8 @@ import PsycheModel.Props.C13
   of the checker's operator dispatch gives one too (never rejects) — for all 18 arithmetic kinds, every ordered pair, every
   operator (corollary of the C13 equalities);
 * type compatibility (6.2.7): every error-free type, of any depth, is compatible with itself as `typesAreCompatible`
-  decides it with qualifiers respected; with `ignoreQualifier` it is NOT so for a qualified pointer (witness, replayed on
-  the implementation: `int * const *x, * const *y; … x == y` is rejected).
+  decides it, with qualifiers respected and with qualifiers ignored (the latter failed for a qualified pointer in the
+  pinned tree - `int * const *x, * const *y; … x == y` was rejected - and holds since the repair of `typesAreCompatible`).
 -/
 namespace PsycheModel.Arith
 open PsycheModel.Specifiers (BK)
@@ -43,32 +43,74 @@ end PsycheModel.Arith
 
 namespace PsycheModel.Compat
 
+theorem unq_false (t : Ty) : unq false t = t := rfl
+theorem unq_true (t : Ty) : unq true t = stripQ t := rfl
+theorem stripQ_idem : ∀ t : Ty, stripQ (stripQ t) = stripQ t
+  | .qual _ t => by simp only [stripQ]; exact stripQ_idem t
+  | .basic _ | .void | .error | .tag _ _ | .ptr _ | .arr _ | .fn _ _ _ => rfl
+theorem errorFree_stripQ : ∀ t : Ty, ErrorFree t → ErrorFree (stripQ t)
+  | .qual _ t, h => by simp only [stripQ]; exact errorFree_stripQ t h
+  | .basic _, h | .void, h | .error, h | .tag _ _, h | .ptr _, h | .arr _, h | .fn _ _ _, h => h
+
 mutual
 /-- **Reflexivity of compatibility** (6.2.7p1: a type is compatible with itself), qualifiers respected, for every
-error-free type of any depth and either treatment of `void`. -/
-theorem compat_refl : ∀ (t : Ty) (va : Bool), ErrorFree t → compat t t va false = true
-  | .basic k, _, _ => by simp [compat]
-  | .void, _, _ => by simp [compat]
-  | .error, _, h => absurd h (by simp [ErrorFree])
-  | .tag k n, _, _ => by simp [compat]
-  | .ptr t, va, h => by simp only [compat]; exact compat_refl t va h
-  | .arr t, va, h => by simp only [compat]; exact compat_refl t va h
+error-free type of any depth (pointers, arrays, functions with parameter lists of any length, qualifiers). -/
+theorem core_refl : ∀ (t : Ty) (va : Bool), ErrorFree t → compatCore t t va false = true
+  | .basic k, _, _ => by simp [compatCore]
+  | .void, _, _ => by simp [compatCore]
+  | .error, _, h => by simp [ErrorFree] at h
+  | .tag k n, _, _ => by simp [compatCore]
+  | .ptr t, va, h => by simp only [compatCore, unq_false]; exact core_refl t va h
+  | .arr t, va, h => by simp only [compatCore, unq_false]; exact core_refl t va h
   | .fn r f ps, va, h => by
-    have hr := compat_refl r false h.1
-    have hp := compatL_refl ps va h.2
-    cases f <;> simp [compat, hr, hp]
+    have hr := core_refl r false h.1
+    have hp := coreL_refl ps va h.2
+    cases f <;> simp [compatCore, unq_false, hr, hp]
   | .qual q u, va, h => by
-    have hu := compat_refl u va h
-    simp [compat, hu]
-theorem compatL_refl : ∀ (ts : TyList) (va : Bool), ErrorFreeL ts → compatL ts ts va false = true
+    have hu := core_refl u va h
+    simp [compatCore, unq_false, hu]
+theorem coreL_refl : ∀ (ts : TyList) (va : Bool), ErrorFreeL ts → compatL ts ts va false = true
   | .nil, _, _ => by simp [compatL]
-  | .cons t rest, va, h => by simp [compatL, compat_refl t va h.1, compatL_refl rest va h.2]
+  | .cons t rest, va, h => by simp [compatL, unq_false, core_refl t va h.1, coreL_refl rest va h.2]
 end
 
-/-- with `ignoreQualifier` the relation is not reflexive: the left qualifier is stripped, the right one is not, and the
-pointer case has no branch for a qualified right operand (`case TypeKind::Qualified: break;`) -/
-theorem C11_witness_qualified_pointer :
-    compat (.qual 1 (.ptr (.basic 5))) (.qual 1 (.ptr (.basic 5))) true true = false := by decide
+theorem compat_refl (t : Ty) (va : Bool) (h : ErrorFree t) : compat t t va false = true := by
+  simpa [compat, unq_false] using core_refl t va h
+
+mutual
+/-- … and **with the qualifiers ignored** (pointer comparison, conversion to `void *`): every error-free type is compatible
+with itself and with itself stripped of qualifiers, at every depth.  (Before the repair of `typesAreCompatible` this
+failed for a qualified pointer: only the qualifiers of the first type were dropped.) -/
+theorem core_refl_iq : ∀ (t : Ty) (va : Bool), ErrorFree t → compatCore t (stripQ t) va true = true
+  | .basic k, _, _ => by simp [compatCore, stripQ]
+  | .void, _, _ => by simp [compatCore, stripQ]
+  | .error, _, h => by simp [ErrorFree] at h
+  | .tag k n, _, _ => by simp [compatCore, stripQ]
+  | .ptr t, va, h => by simp only [stripQ, compatCore, unq_true]; exact core_refl_iq t va h
+  | .arr t, va, h => by simp only [stripQ, compatCore, unq_true]; exact core_refl_iq t va h
+  | .fn r f ps, va, h => by
+    have hr := core_refl_iq r false h.1
+    have hp := coreL_refl_iq ps va h.2
+    cases f <;> simp [stripQ, compatCore, unq_true, hr, hp]
+  | .qual q u, va, h => by
+    have hu := core_refl_iq u va h
+    simp only [stripQ, compatCore, if_true, unq_true, stripQ_idem]
+    exact hu
+theorem coreL_refl_iq : ∀ (ts : TyList) (va : Bool), ErrorFreeL ts → compatL ts ts va true = true
+  | .nil, _, _ => by simp [compatL]
+  | .cons t rest, va, h => by simp [compatL, unq_true, core_refl_iq t va h.1, coreL_refl_iq rest va h.2]
+end
+
+theorem compat_refl_ignoring_qualifiers (t : Ty) (va : Bool) (h : ErrorFree t) : compat t t va true = true := by
+  simpa [compat, unq_true] using core_refl_iq t va h
+
+/-- the former witness of the defect (`int * const *x, * const *y; … x == y`), now accepted -/
+theorem C11_qualified_pointer_now_compatible :
+    compat (.qual 1 (.ptr (.basic 5))) (.qual 1 (.ptr (.basic 5))) true true = true := by decide
+
+/-- `void *` takes a pointer to a structure when void counts as any type (`void *vp = &st;`) -/
+theorem void_matches_tag (k n : Nat) : compat .void (.tag k n) true true = true ∧ compat .void (.tag k n) true false = true := by
+  simp [compat, unq, stripQ, compatCore]
 
 /-- non-vacuity: `int (*)(const char *, struct S *)` -/
 example : ErrorFree (.ptr (.fn (.basic 5) .nonEmpty (.cons (.ptr (.qual 1 (.basic 0))) (.cons (.ptr (.tag 0 7)) .nil)))) := by
